@@ -25,8 +25,7 @@ def observe (σ : State) (c : ClassId) : List DVal × List (Str × Int) :=
 def observeNoFields (σ : State) (c : ClassId) : List DVal × List (Str × Int) :=
   ((allAttrs.filter (· != .fieldSchema)).map (deepLookup σ c), propsOf σ c)
 
-def isPrepared (σ : State) (c : ClassId) : Bool :=
-  match σ.classes[c]? with | some cl => cl.prepared | none => false
+def isPrepared (σ : State) (c : ClassId) : Bool := σ.isPrepared c
 
 /-- the step is the first plain instantiation of a compound class: it prepares that class -/
 def lazyPrep (σ : State) : Step → Option ClassId
